@@ -170,15 +170,16 @@ def handle_quic_packet(packet: Packet, keylog, quic_sessions: list[QuicSession],
             session.handle_packet(packet, dcid, quic_version)
             return
 
-    # unknown address/port pair: match by (non-empty) connection IDs
-    for session in quic_sessions:
-        if header_type == QuicHeaderType.LONG:
-            if dcid and (dcid in session.client_cids or dcid in session.server_cids):
-                session.handle_packet(packet, dcid, quic_version)
-                return
-        else:
-            # match by checking all known cid lengths for session
-            for cid in session.client_cids | session.server_cids:
+    # unknown address/port pair: a short-header packet may belong to a connection that changed its path, match it by
+    # (non-empty) connection IDs; a long-header packet on a new pair starts a new session (short connection IDs chosen
+    # independently by different endpoints do collide)
+    if header_type != QuicHeaderType.LONG:
+        for session in quic_sessions:
+            # the server keeps its address: a packet to the server carries one of the server's connection IDs, a packet
+            # from the server one of the client's
+            to_server = packet.ip_dst == session.server_ip and packet.dport == session.server_port
+            from_server = packet.ip_src == session.server_ip and packet.sport == session.server_port
+            for cid in (session.server_cids if to_server else session.client_cids if from_server else ()):
                 if cid and cid == packet_payload[1:1 + len(cid)]:
                     session.handle_packet(packet, cid, quic_version)
                     return
